@@ -45,6 +45,60 @@ def check_deep(case, acc):
     acc.tag("deep_tree_cases")
 
 
+def check_low_stack(case, acc):
+    """The iterators called from deep inside the caller's own stack (few frames left below the interpreter's limit): each
+    run ends with the complete, correct result or with RecursionError - never with a partial answer handed out as if it
+    were complete."""
+    from ..mut import _stack_depth
+
+    make = nodes.factory(case["cls"])
+    tree = forest.build_tree([[[], [[]]], [], [[]]], make)
+    start = tree[0]
+    pre, stack = [], [start]
+    while stack:
+        cur = stack.pop()
+        pre.append(cur)
+        stack.extend(reversed(cur.children))
+    level, queue = [], [start]
+    groups = []
+    while queue:
+        groups.append(tuple(queue))
+        level.extend(queue)
+        queue = [c for n in queue for c in n.children]
+    post = []
+
+    def walk(n):
+        for c in n.children:
+            walk(c)
+        post.append(n)
+
+    walk(start)
+    zz = [tuple(reversed(g)) if i % 2 else g for i, g in enumerate(groups)]
+    wants = {PreOrderIter: pre, PostOrderIter: post, LevelOrderIter: level, LevelOrderGroupIter: groups, ZigZagGroupIter: zz}
+    old = sys.getrecursionlimit()
+    complete = exhausted = 0
+    for cls, want in wants.items():
+        for headroom in range(2, case["max_headroom"]):
+            it = cls(start)
+            sys.setrecursionlimit(_stack_depth() + headroom)
+            try:
+                got = list(it)
+                outcome = "ok"
+            except RecursionError:
+                outcome = "RecursionError"
+            finally:
+                sys.setrecursionlimit(old)
+            if outcome == "ok":
+                complete += 1
+                if [_ids(x) for x in got] != [_ids(x) for x in want]:
+                    raise Violation(cls.__name__.lower().replace("iter", ""), "%s run with %d frames of stack left returned %d items without any error; the subtree has %d" % (cls.__name__, headroom, len(got), len(want)))
+            else:
+                exhausted += 1
+    acc.nontrivial(exhausted > 0 and complete > 0)
+    acc.tag("iterations_that_ran_out_of_stack", exhausted)
+    acc.tag("iterations_near_the_stack_limit_that_completed", complete)
+
+
 def check_deep_bushy(case, acc):
     """The two depth-first iterators on a tree that is deeper than the interpreter's recursion limit AND bushy (every spine
     node has a leaf as first child): running into RecursionError is a legitimate way out, but whatever was handed out until
@@ -153,6 +207,8 @@ def check_case(case, acc):
         return check_optimised(case, acc)
     if case.get("kind") == "deep-bushy":
         return check_deep_bushy(case, acc)
+    if case.get("kind") == "low-stack":
+        return check_low_stack(case, acc)
     if case.get("kind") == "very-deep":
         return check_very_deep(case, acc)
     if case.get("kind") == "deep":
@@ -336,6 +392,7 @@ def plan(tier, seed):
     examples = 300 if tier == "quick" else 5000
     tasks = [{"engine": "enum", "max_nodes": max_nodes, "index": i, "count": nshards} for i in range(nshards)]
     tasks += [{"engine": "hyp", "examples": examples, "seed": seed * 1000 + i} for i in range(nshards)]
+    tasks += [{"engine": "low-stack", "cls": c, "max_headroom": 40 if tier == "quick" else 80} for c in ("Node", "SlotLM", "AnyNode")]
     tasks += [{"engine": "deep-bushy", "factor": f, "cls": c} for f in ((1.3,) if tier == "quick" else (0.7, 1.3, 2.5)) for c in ("Node", "SlotLM")]
     tasks += [{"engine": "deep", "depth": d, "cls": c} for d in ((270, int(0.6 * sys.getrecursionlimit())) if tier == "quick" else (130, 270, 400, int(0.6 * sys.getrecursionlimit()), int(0.75 * sys.getrecursionlimit()))) for c in ("Node", "SlotLM")]
     tasks += [{"engine": "very-deep", "cls": c} for c in ("Node", "SlotLM")]
@@ -355,6 +412,12 @@ def run_task(task, acc):
         return
     if task["engine"] in ("very-deep", "raised-limit"):
         case = {"kind": task["engine"], "cls": task["cls"]}
+        exc = acc.evaluate(check_case, case, enumerated=False)
+        if exc is not None:
+            acc.add_violation(case, exc)
+        return
+    if task["engine"] == "low-stack":
+        case = {"kind": "low-stack", "cls": task["cls"], "max_headroom": task["max_headroom"]}
         exc = acc.evaluate(check_case, case, enumerated=False)
         if exc is not None:
             acc.add_violation(case, exc)
